@@ -35,6 +35,7 @@ Inductive kind :=
   | KDirSpec  (* C15: directory created by the sink is not 0700 *)
   | KActive   (* C15: naming of the active file contradicts the mode *)
   | KNoRot    (* C15: a rotated file exists although neither limit is set *)
+  | KCrash    (* C08/C15: the directory left by SIGKILL is none of the model's crash points *)
   | KHyp.     (* informational, never reported: the readings fed do not satisfy clock_ok *)
 
 Fixpoint eqNl (a b : list N) : bool :=
@@ -66,22 +67,19 @@ Definition check_model (w : world) (ok : bool) (o : sobs) : list kind :=
   (if eq_list (fun a b => N.eqb (fst a) (fst b) && N.eqb (snd a) (snd b)) (model_foreign w) (o_foreign o) then [] else [KForeign]) ++
   (if eqNl (sout w) (o_out o) && eqNl (serr w) (o_err o) then [] else [KStd]).
 
-(* ids of concurrent writers are writer * 10000 + sequence number; writer k (1-based) got [nth (k-1) counts] events
-   acknowledged, in its program order 1, 2, 3, … *)
-Fixpoint upto (base : N) (n : nat) : list N :=   (* [base+1; …; base+n] *)
-  match n with O => [] | S m => upto base m ++ [(base + N.of_nat n)%N] end.
-Definition writer_ok (strict : bool) (r : list N) (k : nat) (n : N) : bool :=
+(* ids of concurrent writers are writer * 10000 + sequence number; [nth (k-1) wacked] lists the ids whose Process returned
+   nil to writer k (1-based), in its program order *)
+Definition writer_ok (strict : bool) (r : list N) (k : nat) (all : list N) : bool :=
   let mine := filter (fun x => N.eqb (x / 10000) (N.of_nat (S k))) r in
-  let all := upto (N.of_nat (S k) * 10000) (N.to_nat n) in
   if strict then eqNl mine all else is_suffix mine all.
-Fixpoint writers_ok (strict : bool) (r : list N) (k : nat) (counts : list N) : bool :=
-  match counts with [] => true | n :: t => writer_ok strict r k n && writers_ok strict r (S k) t end.
+Fixpoint writers_ok (strict : bool) (r : list N) (k : nat) (wacked : list (list N)) : bool :=
+  match wacked with [] => true | all :: t => writer_ok strict r k all && writers_ok strict r (S k) t end.
 Definition known_writer (nw : N) (x : N) : bool := N.leb 1 (x / 10000) && N.leb (x / 10000) nw.
 
 Section Case.
   Variable c : cfg.
   Variable writers : N.          (* 0: one writer, acknowledgement order known; n > 0: n concurrent writers *)
-  Variable counts : list N.      (* concurrent writers: acknowledged events per writer *)
+  Variable counts : list (list N).   (* concurrent writers: the acknowledged ids of each writer in its program order *)
   Variable dm0 : option N.
 
   (* the properties evaluated on the observations alone *)
@@ -131,7 +129,7 @@ End Case.
 
 Record fcase := {
   c_id : N; c_cfg : cfg; c_fids : list N; c_dm : option N; c_k0 : Z;
-  c_writers : N; c_counts : list N;
+  c_writers : N; c_counts : list (list N);
   c_model : bool;                         (* false: only the observation-only oracles are evaluated *)
   c_steps : list (op * option sobs)
 }.
@@ -169,12 +167,31 @@ Definition coverage (cs : list fcase) : list N :=
        v_pruned := v_pruned a1; v_open_existing := v_open_existing a1; v_extren := v_extren a1;
        v_clock_ok := (v_clock_ok a1 + b2n (clock_okb (c_k0 k) (map fst (c_steps k))))%N; v_cases := (v_cases a1 + 1)%N |}) cs cov0).
 
-(* ---- SIGKILL cases: the child wrote events 1, 2, 3, … one after the other and acknowledged each on a pipe after Process
-   returned; it was killed at an arbitrary instant.  [k_acks] acknowledgements reached the parent. ---- *)
-Record kcase := { k_id : N; k_cfg : cfg; k_acks : N; k_files : list fobs }.
+(* ---- SIGKILL cases: the child wrote events 1, 2, 3, … (event i has [nth (i-1) k_sizes] bytes) one after the other and
+   acknowledged each on a pipe after Process returned; it was killed at an arbitrary instant.  [k_acks] acknowledgements
+   reached the parent, so the child died after Process number k_acks returned and before Process number k_acks + 2 began. ---- *)
+Record kcase := { k_id : N; k_cfg : cfg; k_acks : N; k_sizes : list Z; k_files : list fobs }.
 (* r = [i; i+1; …; m] *)
 Fixpoint consecutive (r : list N) : bool :=
   match r with x :: ((y :: _) as t) => N.eqb y (N.succ x) && consecutive t | _ => true end.
+Definition kwrite (i : N) (size : Z) : op :=
+  let t := (Z.of_N i * 10)%Z in Write i size (t + 1) (t + 2) (t + 3) (t + 4) (t + 5) nofault.
+Fixpoint kwrites (i : N) (sizes : list Z) (n : nat) : list op :=
+  match n, sizes with S m, sz :: r => kwrite i sz :: kwrites (N.succ i) r m | _, _ => [] end.
+(* modes are not compared here: open() is one step of the model but OpenFile + Chmod in the code, so the newest file may
+   be caught between the two; the modes of all older files are checked by KModeSpec below *)
+Definition files_match (w : world) (obs : list fobs) : bool :=
+  eq_list (fun a b => N.eqb (fo_kind a) (fo_kind b) && eqNl (fo_data a) (fo_data b)) (model_files w) obs.
+(* the directory found after the kill must be the state after the last acknowledged call or one of the crash points
+   (FileSink.crash_points: after each atomic file-system step) of the next call — the last of which is its normal end *)
+Definition kill_model_ok (k : kcase) : bool :=
+  let a := N.to_nat (k_acks k) in
+  let wa := run_from (k_cfg k) (w_init [] None 0) (kwrites 1 (k_sizes k) a) in
+  files_match wa (k_files k) ||
+  match skipn a (k_sizes k) with
+  | sz :: _ => existsb (fun w' => files_match w' (k_files k)) (crash_points (k_cfg k) wa (kwrite (N.succ (k_acks k)) sz))
+  | [] => false
+  end.
 Definition kill_check (k : kcase) : list kind :=
   let r := concat (map fo_data (k_files k)) in
   let a := k_acks k in
@@ -184,6 +201,25 @@ Definition kill_check (k : kcase) : list kind :=
       | [] => N.eqb a 0 || negb (N.eqb (maxFiles (k_cfg k)) 0)
       | x :: _ => let m := last r 0%N in (N.eqb m a || N.eqb m (N.succ a)) && (N.eqb x 1 || negb (N.eqb (maxFiles (k_cfg k)) 0))
       end then [] else [if N.eqb (maxFiles (k_cfg k)) 0 then KLoss else KSuffix]) ++
-  (if forallb (fun f => N.eqb (fo_mode f) (eff_mode (k_cfg k))) (k_files k) then [] else [KModeSpec]).
+  (if forallb (fun f => N.eqb (fo_mode f) (eff_mode (k_cfg k))) (removelast (k_files k)) then [] else [KModeSpec]) ++
+  (if kill_model_ok k then [] else [KCrash]).
 Definition kill_mismatches (ks : list kcase) : list (N * (N * N * kind)) :=
   flat_map (fun k => map (fun m => (k_id k, (0%N, 1%N, m))) (kill_check k)) ks.
+
+(* where the kill landed: 0 = in the state after the last acknowledged call; j > 0 = at the j-th crash point of the next call
+   (the last one being its normal end); 999 = nowhere (KCrash) *)
+Fixpoint find_index {A} (p : A -> bool) (l : list A) (i : N) : N :=
+  match l with [] => 999%N | x :: t => if p x then i else find_index p t (N.succ i) end.
+Definition kill_position (k : kcase) : N :=
+  let a := N.to_nat (k_acks k) in
+  let wa := run_from (k_cfg k) (w_init [] None 0) (kwrites 1 (k_sizes k) a) in
+  match skipn a (k_sizes k) with
+  | sz :: _ =>
+      let pts := crash_points (k_cfg k) wa (kwrite (N.succ (k_acks k)) sz) in
+      let j := find_index (fun w' => files_match w' (k_files k)) pts 1%N in
+      if N.eqb j 999 then (if files_match wa (k_files k) then 0%N else 999%N)
+      else if N.eqb j (N.of_nat (length pts)) then 1000%N      (* the call completed; only the acknowledgement was cut off *)
+      else if files_match wa (k_files k) then 0%N else j
+  | [] => 999%N
+  end.
+Definition kill_positions (ks : list kcase) : list N := map kill_position ks.
